@@ -10,13 +10,60 @@ import (
 // VM slots: 0 = base, 1..maxTemps = temporary VMs numbered by creation order (a slot is never
 // reused after discard). Names 0..nSym-1 are interchangeable identifiers (histories are
 // enumerated up to renaming: a name may be used only if all smaller ones were used before);
-// name nameF is the autoloadable class backed by a file reachable through the class path manager.
+// names >= nSym form the class-path family: files reachable through the class path manager
+// (AddNamespace), autoloadable by every VM and also loadable directly (LoadAndRun / require):
+//   F  class Autol                                   (Autol.zy)
+//   G  interface Shapi + bystander class ShapiAid    (Shapi.zy; the bystander "Gb" has no file of its own)
+//   H  class Circl extends Autol implements Shapi    (Circl.zy; loading it loads F and G first)
 
 const (
 	maxSlots = 4 // base + 3 temps
 	nSym     = 3
-	nameF    = 3 // autoloadable class (file backed); only "new" ops and the observation touch it
+	nameF    = 3 // autoloadable class
+	nameG    = 4 // autoloadable interface
+	nameH    = 5 // autoloadable class depending on F and G
+	nameGb   = 6 // class declared next to G in G's file (never named by an op, only observed)
+	nNames   = 7
 )
+
+// units: one per class-path file.
+const (
+	uF = iota
+	uG
+	uH
+	nUnits
+)
+
+var unitOf = [nNames]int{nameF: uF, nameG: uG, nameH: uH, nameGb: uG}
+var unitName = [nUnits]int{uF: nameF, uG: nameG, uH: nameH}
+var unitDeps = [nUnits][]int{uH: {uF, uG}}
+
+// autoloadable: the name has a file of its own on the class path (the bystander has not).
+func autoloadable(n int) bool { return n == nameF || n == nameG || n == nameH }
+
+// handler forms: how the callable that a request invokes was made at boot time on the base VM.
+const (
+	fPlain = iota
+	fUse
+	fUseRef
+	fStatic
+	fArrow
+	fNested
+	fViaFunc
+	fViaStatic
+	fViaNew
+	fInMethod
+	fInStatic
+	fObjMethod
+	nForms
+)
+
+var formName = [nForms]string{"closure", "closure-use", "closure-use-ref", "static-closure", "arrow-fn", "nested-closure-use", "via-base-function", "via-static-method", "via-new-object", "closure-made-in-method", "closure-made-in-static-method", "method-of-boot-object"}
+
+// formGroup: what the body of the callable is lexically bound to (used to group minimal histories
+// of one root cause): nothing / a class whose object is created inside the request / an object or
+// class scope that exists since boot.
+var formGroup = [nForms]string{"free", "free", "free", "free", "free", "free", "free", "request-object", "request-object", "boot-object", "boot-object", "boot-object"}
 
 const (
 	kClass = iota
@@ -36,6 +83,11 @@ const (
 	opLookup  = "lookup"
 	opNew     = "new"
 	opCall    = "call"
+	// handler(vm, form, name): a callable of the given form is made by a boot script on the BASE VM
+	// and then invoked the way std/net/http.HotHandler.ServeHTTP invokes a route handler: on a fresh
+	// context derived from the registration context whose VM is replaced by vm. Its body declares
+	// function <name>, requires a file declaring class <name>, and instantiates the autoloadable F.
+	opHandler = "handler"
 )
 
 type Op struct {
@@ -43,6 +95,29 @@ type Op struct {
 	VM   int    `json:"vm,omitempty"`
 	Kind int    `json:"kind,omitempty"`
 	Name int    `json:"name,omitempty"`
+	Form int    `json:"form,omitempty"`
+}
+
+// ext: the op belongs to the extended alphabet (enumerated to a shorter length than the core one).
+func (o Op) ext() bool {
+	switch o.K {
+	case opHandler:
+		return true
+	case opLoad:
+		return o.Name >= nSym
+	case opNew:
+		return o.Name > nameF
+	}
+	return false
+}
+
+func hasExt(h []Op) bool {
+	for _, o := range h {
+		if o.ext() {
+			return true
+		}
+	}
+	return false
 }
 
 func vmLabel(i int) string {
@@ -53,8 +128,15 @@ func vmLabel(i int) string {
 }
 
 func nameLabel(n int) string {
-	if n == nameF {
+	switch n {
+	case nameF:
 		return "F"
+	case nameG:
+		return "G"
+	case nameH:
+		return "H"
+	case nameGb:
+		return "Gb"
 	}
 	return string(rune('A' + n))
 }
@@ -67,6 +149,8 @@ func (o Op) String() string {
 		return "discard(" + vmLabel(o.VM) + ")"
 	case opDefine:
 		return fmt.Sprintf("define(%s,%s,%s)", vmLabel(o.VM), kindName[o.Kind], nameLabel(o.Name))
+	case opHandler:
+		return fmt.Sprintf("handler(%s,%s,%s)", vmLabel(o.VM), formName[o.Form], nameLabel(o.Name))
 	default: // new, call, loadfile, evaldef
 		return fmt.Sprintf("%s(%s,%s)", o.K, vmLabel(o.VM), nameLabel(o.Name))
 	}
@@ -99,15 +183,81 @@ type model struct {
 	opt [maxSlots][nKinds][nSym][]int
 	// how many definitions came through LoadAndRun per VM (part of the merge key: the route leaves
 	// state behind — parser bindings, loaded-file marks — that no lookup shows directly)
+	// float: definitions made by a handler whose body is bound to an object / class scope that exists
+	// since boot (formGroup "boot-object"). Such code belongs to the base VM as much as to the request
+	// that invokes it; whether what it defines lands in the base or in the request VM is left open
+	// (today: the base). They are also entered in defs[vm] (the invoking VM must resolve them) and
+	// stay allowed everywhere, also after that VM is discarded.
+	float   [nKinds][nSym][]int
 	viaFile [maxSlots]int
 	created int // temps created so far
 	used    int // symmetric names used so far (canonical naming)
+	alpha   int // 0 = core alphabet, 1 = extended alphabet (handler ops, class-path family ops)
+	hform   int // form shared by all handler ops of the history (-1: none yet)
+
+	// class-path family. A unit (file) is *surely* visible on v when the base loaded it (baseYes) or
+	// v itself loaded / triggered it (sees[v]). When a temp triggers an autoload, where the file's
+	// definitions land is left open (today: classes in the temp, interfaces and LoadPkg loads in the
+	// base): baseMaybe. A direct load through a temp (LoadAndRun / require) is a definition through
+	// that temp and never sets baseMaybe.
+	baseYes   [nUnits]bool
+	baseMaybe [nUnits]bool
+	sees      [maxSlots][nUnits]bool
 }
 
 func newModel() *model {
-	m := &model{}
+	m := &model{hform: -1}
 	m.status[0] = stLive
 	return m
+}
+
+func newModelA(alpha int) *model {
+	m := newModel()
+	m.alpha = alpha
+	return m
+}
+
+// sure: unit u must resolve on v (any probe). may: it may resolve on v under a non-loading probe.
+func (m *model) sure(v, u int) bool { return m.baseYes[u] || m.sees[v][u] }
+func (m *model) may(v, u int) bool  { return m.sure(v, u) || m.baseMaybe[u] }
+
+// depsMaybe: loading u's file may pull in the files u depends on — at once (the class path manager
+// pre-loads parents and interfaces) or only when they are first needed (LoadAndRun): left open, and
+// so is where they land.
+func (m *model) depsMaybe(v, u int) {
+	for _, d := range unitDeps[u] {
+		if !m.sure(v, d) {
+			m.baseMaybe[d] = true
+		}
+	}
+}
+
+// trigger: a loading lookup of unit u through v. A lookup of something v surely sees is pure.
+func (m *model) trigger(v, u int) {
+	if m.sure(v, u) {
+		return
+	}
+	m.depsMaybe(v, u)
+	if v == 0 {
+		m.baseYes[u] = true
+		return
+	}
+	m.sees[v][u] = true
+	m.baseMaybe[u] = true
+}
+
+// directLoad: v.LoadAndRun(file of u). The dependencies are autoloaded through v while the file is
+// parsed; the file's own definitions are made through v.
+func (m *model) directLoad(v, u int) {
+	if m.sure(v, u) {
+		return // already loaded for v: the loaded-file mark makes it a no-op
+	}
+	m.depsMaybe(v, u)
+	if v == 0 {
+		m.baseYes[u] = true
+		return
+	}
+	m.sees[v][u] = true
 }
 
 func (m *model) clone() *model {
@@ -118,6 +268,11 @@ func (m *model) clone() *model {
 				c.defs[v][k][n] = append([]int(nil), m.defs[v][k][n]...)
 				c.opt[v][k][n] = append([]int(nil), m.opt[v][k][n]...)
 			}
+		}
+	}
+	for k := range m.float {
+		for n := range m.float[k] {
+			c.float[k][n] = append([]int(nil), m.float[k][n]...)
 		}
 	}
 	return &c
@@ -138,9 +293,9 @@ func (m *model) live() []int {
 // the statement speaks about, so such ops are not part of the alphabet.
 func (m *model) baseTaken(kind, name int) bool {
 	if kind == kFunc {
-		return len(m.defs[0][kFunc][name])+len(m.opt[0][kFunc][name]) > 0
+		return len(m.defs[0][kFunc][name])+len(m.opt[0][kFunc][name])+len(m.float[kFunc][name]) > 0
 	}
-	return len(m.defs[0][kClass][name])+len(m.defs[0][kIface][name])+len(m.opt[0][kClass][name])+len(m.opt[0][kIface][name]) > 0
+	return len(m.defs[0][kClass][name])+len(m.defs[0][kIface][name])+len(m.opt[0][kClass][name])+len(m.opt[0][kIface][name])+len(m.float[kClass][name])+len(m.float[kIface][name]) > 0
 }
 
 // enabled lists the ops that may follow in state m (canonical naming enforced).
@@ -183,6 +338,33 @@ func (m *model) enabled(maxTemps int) []Op {
 			ops = append(ops, Op{K: opNew, VM: v, Name: n})
 		}
 		ops = append(ops, Op{K: opNew, VM: v, Name: nameF})
+		if m.alpha > 0 {
+			ops = append(ops, Op{K: opNew, VM: v, Name: nameG}, Op{K: opNew, VM: v, Name: nameH})
+		}
+	}
+	if m.alpha > 0 {
+		for _, v := range live {
+			for _, n := range []int{nameF, nameG, nameH} {
+				ops = append(ops, Op{K: opLoad, VM: v, Name: n})
+			}
+		}
+		for _, v := range live {
+			for n := 0; n < names; n++ {
+				if v == 0 && (m.baseTaken(kClass, n) || m.baseTaken(kFunc, n)) {
+					continue
+				}
+				taken := m.baseTaken(kClass, n) || m.baseTaken(kFunc, n)
+				for f := 0; f < nForms; f++ {
+					if m.hform >= 0 && f != m.hform {
+						continue
+					}
+					if taken && formGroup[f] == "boot-object" {
+						continue // the body may run on the base VM, which rejects the redefinition
+					}
+					ops = append(ops, Op{K: opHandler, VM: v, Name: n, Form: f})
+				}
+			}
+		}
 	}
 	for _, v := range live {
 		for n := 0; n < names; n++ {
@@ -202,7 +384,9 @@ func (m *model) enabled(maxTemps int) []Op {
 
 // valid reports whether op may be applied in m (used by replay / reduction).
 func (m *model) valid(o Op, maxTemps int) bool {
-	for _, e := range m.enabled(maxTemps) {
+	c := *m
+	c.alpha = 1
+	for _, e := range c.enabled(maxTemps) {
 		if e == o {
 			return true
 		}
@@ -213,7 +397,7 @@ func (m *model) valid(o Op, maxTemps int) bool {
 // apply advances the model; id is the index of the op in the history (= definition id).
 func (m *model) apply(o Op, id int) {
 	if o.named() {
-		if o.Name != nameF && o.Name >= m.used {
+		if o.Name < nSym && o.Name >= m.used {
 			m.used = o.Name + 1
 		}
 	}
@@ -226,12 +410,40 @@ func (m *model) apply(o Op, id int) {
 		m.defs[o.VM] = [nKinds][nSym][]int{}
 		m.opt[o.VM] = [nKinds][nSym][]int{}
 		m.viaFile[o.VM] = 0
+		m.sees[o.VM] = [nUnits]bool{}
 	case opDefine:
 		m.defs[o.VM][o.Kind][o.Name] = append(m.defs[o.VM][o.Kind][o.Name], id)
 	case opLoad:
+		if o.Name >= nSym {
+			m.directLoad(o.VM, unitOf[o.Name])
+			m.viaFile[o.VM]++
+			break
+		}
 		m.defs[o.VM][kClass][o.Name] = append(m.defs[o.VM][kClass][o.Name], id)
 		m.defs[o.VM][kFunc][o.Name] = append(m.defs[o.VM][kFunc][o.Name], id)
 		m.viaFile[o.VM]++
+	case opHandler:
+		m.hform = o.Form
+		m.defs[o.VM][kClass][o.Name] = append(m.defs[o.VM][kClass][o.Name], id)
+		m.defs[o.VM][kFunc][o.Name] = append(m.defs[o.VM][kFunc][o.Name], id)
+		if o.VM != 0 && formGroup[o.Form] == "boot-object" {
+			m.float[kClass][o.Name] = append(m.float[kClass][o.Name], id)
+			m.float[kFunc][o.Name] = append(m.float[kFunc][o.Name], id)
+			m.baseMaybe[uF] = true // if the body runs on the base VM it is the base that autoloads F
+		}
+		m.viaFile[o.VM]++
+		m.trigger(o.VM, uF)
+	case opNew:
+		if o.Name >= nSym {
+			m.trigger(o.VM, unitOf[o.Name])
+		}
+	case opLookup:
+		// every live VM (temps oldest first, the base last) asks for every class-path name
+		for _, v := range append(m.live()[1:], 0) {
+			for u := 0; u < nUnits; u++ {
+				m.trigger(v, u)
+			}
+		}
 	case opEval:
 		for k := 0; k < nKinds; k++ {
 			m.opt[o.VM][k][o.Name] = append(m.opt[o.VM][k][o.Name], id)
@@ -246,6 +458,15 @@ func (m *model) apply(o Op, id int) {
 func (m *model) allowed(v int, kinds []int, name int) []int {
 	r := m.must(v, kinds, name)
 	for _, k := range kinds {
+		for _, d := range m.float[k][name] {
+			dup := false
+			for _, x := range r {
+				dup = dup || x == d
+			}
+			if !dup {
+				r = append(r, d)
+			}
+		}
 		r = append(r, m.opt[0][k][name]...)
 		if v != 0 {
 			r = append(r, m.opt[v][k][name]...)
@@ -269,14 +490,16 @@ func (m *model) must(v int, kinds []int, name int) []int {
 // named: the op mentions one of the interchangeable names.
 func (o Op) named() bool {
 	switch o.K {
-	case opDefine, opLoad, opEval, opNew, opCall:
+	case opDefine, opLoad, opEval, opNew, opCall, opHandler:
 		return true
 	}
 	return false
 }
 
-// defines: the op makes (or requests) definitions.
-func (o Op) defines() bool { return o.K == opDefine || o.K == opLoad || o.K == opEval }
+// defines: the op makes (or requests) definitions of one of the interchangeable names.
+func (o Op) defines() bool {
+	return o.K == opDefine || (o.K == opLoad && o.Name < nSym) || o.K == opEval || o.K == opHandler
+}
 
 // owner describes a definition id for messages and canonical observation vectors.
 func (m *model) owner(id int) (v, k, n, ord int, ok bool) {
@@ -296,13 +519,33 @@ func (m *model) owner(id int) (v, k, n, ord int, ok bool) {
 			}
 		}
 	}
+	for k := 0; k < nKinds; k++ {
+		for n := 0; n < nSym; n++ {
+			for i, d := range m.float[k][n] {
+				if d == id {
+					return maxSlots, k, n, 200 + i, true
+				}
+			}
+		}
+	}
 	return 0, 0, 0, 0, false
 }
 
 // canon is the canonical model state used in the dedup key.
 func (m *model) canon() string {
 	var sb strings.Builder
-	fmt.Fprintf(&sb, "c%du%d|", m.created, m.used)
+	fmt.Fprintf(&sb, "c%du%dh%d|", m.created, m.used, m.hform)
+	for k := 0; k < nKinds; k++ {
+		for n := 0; n < nSym; n++ {
+			fmt.Fprintf(&sb, "f%d", len(m.float[k][n]))
+		}
+	}
+	for u := 0; u < nUnits; u++ {
+		fmt.Fprintf(&sb, "%v%v", m.baseYes[u], m.baseMaybe[u])
+		for v := 0; v < maxSlots; v++ {
+			fmt.Fprintf(&sb, "%v", m.sees[v][u])
+		}
+	}
 	for v := 0; v < maxSlots; v++ {
 		fmt.Fprintf(&sb, "%d:f%d:", m.status[v], m.viaFile[v])
 		for k := 0; k < nKinds; k++ {
@@ -327,7 +570,7 @@ func normalise(h []Op, maxTemps int) ([]Op, bool) {
 	m := newModel()
 	for _, o := range h {
 		if o.named() {
-			if o.Name != nameF {
+			if o.Name < nSym {
 				if _, ok := ren[o.Name]; !ok {
 					ren[o.Name] = next
 					next++
@@ -373,20 +616,24 @@ func dropOp(h []Op, i int) ([]Op, bool) {
 }
 
 // countHistories counts the canonical histories of exactly each length 0..maxLen (model only).
-func countHistories(maxLen, maxTemps int) []int64 {
+// With alpha = 1 only the histories containing at least one op of the extended alphabet are counted
+// (the others belong to the core enumeration).
+func countHistories(maxLen, maxTemps, alpha int) []int64 {
 	cnt := make([]int64, maxLen+1)
-	var rec func(m *model, d int)
-	rec = func(m *model, d int) {
-		cnt[d]++
+	var rec func(m *model, d int, ext bool)
+	rec = func(m *model, d int, ext bool) {
+		if alpha == 0 || ext {
+			cnt[d]++
+		}
 		if d == maxLen {
 			return
 		}
 		for _, o := range m.enabled(maxTemps) {
 			c := m.clone()
 			c.apply(o, d)
-			rec(c, d+1)
+			rec(c, d+1, ext || o.ext())
 		}
 	}
-	rec(newModel(), 0)
+	rec(newModelA(alpha), 0, false)
 	return cnt
 }
